@@ -772,6 +772,17 @@ func (en *Env) evalOverlayCall(fobj *types.Func, decl *ast.FuncDecl, n *ast.Call
 	case "feq":
 		return TV(App("fp.eq", SBool, en.evalT(n.Args[0]), en.evalT(n.Args[1])))
 	}
+	// ghost function with a model definition (refinement unit)
+	if p := x.eng.ghostPred(fobj); p != nil && x.refine != nil {
+		if m := x.refine.con.Models[name]; m != nil {
+			var extra []*Term
+			for _, a := range n.Args[1:] {
+				extra = append(extra, x.svTerm(en.eval(a)))
+			}
+			t, _ := x.evalModelWith(m, x.refine.con, en.heap, en.old, en.st, extra)
+			return TV(t)
+		}
+	}
 	// ghost (uninterpreted, heap-dependent) function
 	if p := x.eng.ghostPred(fobj); p != nil {
 		if len(n.Args) < 1 || len(n.Args) > 2 {
